@@ -50,6 +50,10 @@ func c18Scenarios(cfg runCfg) []Scenario {
 	for j := 0; j < cfg.n(160, 5); j++ {
 		add(Scenario{Family: "floatbands", Seed: mix(cfg.seed, 18, 4, uint64(j))})
 	}
+	// (a') tiny float ranges, every representable value (ULP level)
+	for j := 0; j < cfg.n(1600, 5); j++ {
+		add(Scenario{Family: "floatulp", Seed: mix(cfg.seed, 18, 8, uint64(j))})
+	}
 	// (c) edges
 	for j := 0; j < cfg.n(6400, 5); j++ {
 		add(Scenario{Family: "edges", Seed: mix(cfg.seed, 18, 5, uint64(j))})
@@ -311,6 +315,67 @@ func c18Run(t *testing.T, sc Scenario, res *Result) {
 			res.violate(sc, "c18/float-band-unreachable", fmt.Sprintf("full-range float (32-bit: %v): %d of %d (sign, exponent sign, exponent magnitude) bands never produced in %d draws: %v", is32, len(need), total, draws, need), nil)
 		}
 
+	case "floatulp":
+		// Float64Range/Float32Range(a, a + k ulp), k in 1..20: all k+1 representable values must be produced
+		k := r.between(1, 20)
+		want := map[string]bool{}
+		var g *rapid.Generator[any]
+		var desc string
+		if r.chance(1, 2) {
+			a := f64Bound(r)
+			if math.IsInf(a, 0) || a != a {
+				a = 1
+			}
+			if r.chance(1, 2) {
+				a = math.Ldexp(1+float64(r.next()>>12)/(1<<52), r.between(-30, 60)) * float64(1-2*r.intn(2))
+			}
+			b := a
+			want[canon(a)] = true
+			for i := 0; i < k; i++ {
+				b = math.Nextafter(b, math.Inf(1))
+				want[canon(b)] = true
+			}
+			if math.IsInf(b, 0) {
+				return
+			}
+			g, desc = rapid.Float64Range(a, b).AsAny(), fmt.Sprintf("Float64Range(%#x, +%d ulp)", math.Float64bits(a), k)
+		} else {
+			a := f32Bound(r)
+			if math.IsInf(float64(a), 0) || a != a {
+				a = 128
+			}
+			if r.chance(1, 2) {
+				a = float32(math.Ldexp(1+float64(r.next()>>41)/(1<<23), r.between(-20, 40))) * float32(1-2*r.intn(2))
+			}
+			b := a
+			want[canon(a)] = true
+			for i := 0; i < k; i++ {
+				b = math.Nextafter32(b, float32(math.Inf(1)))
+				want[canon(b)] = true
+			}
+			if math.IsInf(float64(b), 0) {
+				return
+			}
+			g, desc = rapid.Float32Range(a, b).AsAny(), fmt.Sprintf("Float32Range(%#x, +%d ulp)", math.Float32bits(a), k)
+		}
+		// -0 and +0 are the same value of the contract
+		delete(want, "f64:8000000000000000")
+		delete(want, "f32:80000000")
+		total := len(want)
+		draws := 0
+		drawMany(g, 100000, sc.Seed, func(v any) bool {
+			draws++
+			delete(want, canon(v))
+			return len(want) > 0
+		})
+		res.inc("float_ulp_ranges")
+		res.count("draws", int64(draws))
+		res.max("max:draws_to_cover_float_ulp_range", int64(draws))
+		res.nontrivial(desc)
+		if len(want) > 0 {
+			res.violate(sc, "c18/float-unreachable", fmt.Sprintf("%s: %d of its %d representable values were never produced in %d draws (e.g. %s)", desc, len(want), total, draws, keys(want)[0]), nil)
+		}
+
 	case "edges":
 		gx, lo, hi, zero := c18EdgeRange(r)
 		needed := map[string]bool{lo: true, hi: true}
@@ -360,6 +425,23 @@ func c18Run(t *testing.T, sc Scenario, res *Result) {
 		}
 		res.inc("fresh_pairs")
 		res.nontrivial(fmt.Sprintf("fresh/%x", sc.Seed))
+		// one stored MakeCheck function invoked several times (table-driven sub-tests): every invocation is a fresh run
+		{
+			setFlags(map[string]string{"rapid.checks": "20", "rapid.nofailfile": "true"})
+			var cur *[]string
+			f := rapid.MakeCheck(func(rt *rapid.T) {
+				*cur = append(*cur, fmt.Sprint(permGen.Draw(rt, "p")))
+			})
+			var runs [3][]string
+			for k := range runs {
+				cur = &runs[k]
+				t.Run("mk", f)
+			}
+			res.inc("stored_makecheck_triples")
+			if fmt.Sprint(runs[0]) == fmt.Sprint(runs[1]) || fmt.Sprint(runs[1]) == fmt.Sprint(runs[2]) || fmt.Sprint(runs[0]) == fmt.Sprint(runs[2]) {
+				res.violate(sc, "c18/makecheck-not-fresh", "two invocations of one stored MakeCheck function (no -rapid.seed) generated the same sequence of test cases", map[string]any{"first_cases": clipList(runs[0], 2)})
+			}
+		}
 		if fmt.Sprint(seqs[0]) == fmt.Sprint(seqs[1]) {
 			res.violate(sc, "c18/not-fresh", "two Check calls without -rapid.seed generated the same sequence of test cases", map[string]any{"first_cases": clipList(seqs[0], 3)})
 		}
